@@ -259,11 +259,18 @@ def w_branch_rule(chk, fi):
     """Sibling branches of `if periods[0] == 0`: w = 2*pi/periods on the non-placeholder rows in both."""
     c = "%s:%s{w}" % (fi.module.relpath, fi.name)
     forms = []
+    # `w = <name>` makes that name another name of w (a helper's local handed back): its definitions are definitions of w
+    names = {"w"}
+    for _ in range(3):
+        for n in ast.walk(fi.node):
+            if isinstance(n, ast.Assign) and len(n.targets) == 1 and isinstance(n.targets[0], ast.Name) and n.targets[0].id in names and \
+                    isinstance(n.value, ast.Name):
+                names.add(n.value.id)
     for n in ast.walk(fi.node):
         if isinstance(n, ast.Assign) and len(n.targets) == 1:
             t = n.targets[0]
             tn = t.id if isinstance(t, ast.Name) else (t.value.id if isinstance(t, ast.Subscript) and isinstance(t.value, ast.Name) else None)
-            if tn != "w":
+            if tn not in names or (isinstance(n.value, ast.Name) and n.value.id in names):
                 continue
             if isinstance(n.value, ast.Call) and ast.unparse(n.value.func).split(".")[-1] in ("ones_like", "ones", "zeros_like", "empty_like"):
                 continue
